@@ -15,8 +15,8 @@ import numpy as np
 from harness.common import cf, cflist, cnat, differential, hexf, unhex
 
 ID = "C10"
-IMPORTS = "From Evo Require Import Num Linalg Filters.\n"
-COQ_TARGETS = ["theories/FiltersProofs.vo"]
+IMPORTS = "From Evo Require Import Num Linalg Filters FiltersCheck.\n"
+COQ_TARGETS = ["theories/FiltersProofs.vo", "theories/FiltersCheck.vo"]
 TRUSTED = [
     "model Evo.Filters written by hand from evo/core/filters.py, metrics.id_pairs_from_delta, "
     "geometry.accumulated_distances; tie = differential run (index pairs must be equal)",
@@ -26,8 +26,9 @@ TRUSTED = [
     "numerically against cos(angle) = (trace(Ri^T Rj) - 1)/2",
     "numpy: norm(axis=1) = sqrt((x*x + y*y) + z*z), cumsum sequential, argmin first minimum, "
     "deg2rad(x) = x * (pi/180) - all measured bit-exactly on every case",
-    "an independent Python restatement of the property text (spec_check) classifies disagreements and is run on "
-    "every implementation output",
+    "an independent Python restatement of the property text (spec_check) is run on every implementation output; for "
+    "the chain and all-pairs path clauses the implementation's output is additionally judged inside Coq by the "
+    "proven checkers chain_text_b / path_all_text_b (inputs up to 80 poses)",
 ]
 ASSUMPTIONS = ["at least one pose; delta > 0 (frames: integer >= 1), tolerance >= 0; finite coordinates",
                "poses are SE(3) matrices"]
@@ -171,7 +172,23 @@ def expr(case, out):
     margin = "1"
     if unit == "meters" and not case["all_pairs"] and not case.get("exact"):
         margin = "chain_margin %s 0 (consec_steps %s)" % (cf(delta), ps)
-    return "(%s, %s)" % (m, margin)
+    # proven checkers (FiltersCheck.v) applied to the implementation's own output, for the clauses of the property
+    # that do not fix the output completely
+    verdict = "true"
+    got = out.get("pairs")
+    if got and len(pos) <= 80:
+        P = "[" + "; ".join("(%s, %s)" % (cnat(a), cnat(b)) for a, b in got) + "]"
+        hi = case["level"] == "hi"
+        if unit == "meters" and not case["all_pairs"]:
+            verdict = "chain_text_b %s (consec_steps %s) false %s" % (cf(delta), ps, P)
+        elif unit == "meters":
+            t = "(%s *! %s)%%num" % (cf(delta), cf(tol)) if hi else cf(tol)
+            verdict = "path_all_text_b (acc_dists %s) %s %s %s" % (ps, cf(delta), t, P)
+        elif unit in ("degrees", "radians") and not case["all_pairs"]:
+            d = "(deg2rad pi_f %s)" % cf(delta) if unit == "degrees" else cf(delta)
+            if 0 <= delta <= (180.0 if unit == "degrees" else math.pi):
+                verdict = "chain_text_b %s (0 :: %s) true %s" % (d, das, P)
+    return "(%s, %s, %s)" % (m, margin, verdict)
 
 
 # ------------------------------------------------------------------ the property text, restated independently
@@ -322,7 +339,13 @@ FRAGILE = [0]
 
 
 def judge(case, val, out):
-    model, margin = val
+    model, margin, verdict = val
+    exactly = bool(case.get("exact")) or case["unit"] in ("degrees", "radians") or (case["unit"] == "meters" and case["all_pairs"])
+    if verdict is False and (exactly or not (isinstance(margin, (int, float)) and margin < 1e-9)):
+        return {"kind": "spec-violation", "failing_input": True,
+                "detail": "implementation output rejected by the proven checker %s" % (
+                    "path_all_text_b (C10_path_all_checker_sound)" if case["all_pairs"]
+                    else "chain_text_b (C10_chain_checker_sound)")}
     if out.get("inputs_unchanged") is False:
         return {"kind": "spec-violation", "failing_input": True, "detail": "the pose list was modified"}
     if out.get("oracle_ok") is False:
